@@ -199,6 +199,16 @@ class C05(Check):
          "threads": [[["consume", 0, 7, "ATP", False, 0]], [["consume", 0, 3, "NADH", False, 0]]]},
         {"stores": [{"budget": 5, "gtp": 0, "nadh": 4, "max_debt": 0, "rate": 0.5}, {"budget": 5, "gtp": 0, "nadh": 4, "max_debt": 0, "rate": 0.5}],
          "threads": [[["consume", 0, 8, "ATP", False, 0]], [["transfer", 0, 1, 3, "NADH"], ["regen", 0, 2, "NADH"]]]},
+        # a transfer in flight while the donor takes on debt (every spend branch must respect what the transfer holds)
+        {"stores": [{"budget": 8, "gtp": 0, "nadh": 0, "max_debt": 6, "rate": 0.5}, {"budget": 5, "gtp": 0, "nadh": 0, "max_debt": 0, "rate": 0.5}],
+         "threads": [[["transfer", 0, 1, 5, "ATP"]], [["consume", 0, 6, "ATP", True, 0]]]},
+        {"stores": [{"budget": 4, "gtp": 0, "nadh": 2, "max_debt": 9, "rate": 0.5}, {"budget": 5, "gtp": 0, "nadh": 0, "max_debt": 0, "rate": 0.5}],
+         "threads": [[["transfer", 0, 1, 3, "ATP"], ["transfer", 0, 1, 1, "NADH"]], [["consume", 0, 5, "ATP", True, 0], ["consume", 0, 3, "NADH", True, 0]]]},
+        # reset while spends are queued behind it and arrive after it
+        {"stores": [{"budget": 10, "gtp": 0, "nadh": 0, "max_debt": 0, "rate": 0.5}],
+         "threads": [[["reset", 0]], [["consume", 0, 6, "ATP", False, 0]], [["consume", 0, 6, "ATP", False, 0]]]},
+        {"stores": [{"budget": 10, "gtp": 0, "nadh": 0, "max_debt": 0, "rate": 0.5}],
+         "threads": [[["consume", 0, 3, "ATP", False, 0], ["reset", 0]], [["consume", 0, 6, "ATP", False, 0]], [["consume", 0, 6, "ATP", False, 0]]]},
         # spend with NADH top-up vs convert
         {"stores": [{"budget": 5, "gtp": 0, "nadh": 3, "max_debt": 5, "rate": 0.5}],
          "threads": [[["consume", 0, 8, "ATP", True, 0]], [["convert", 0, 3], ["regen", 0, 5, "ATP"]]]},
@@ -312,6 +322,9 @@ class C05(Check):
                         inflow += op[2]
                     if op[0] == "transfer" and op[2] == i:
                         inflow += op[3]
+                    if op[0] == "reset" and op[1] == i:
+                        # a reset refills every pool and clears the debt: at most one more full budget per reset
+                        inflow += cfg["budget"] + cfg["gtp"] + cfg["nadh"] + cfg["max_debt"]
             avail = cfg["budget"] + cfg["gtp"] + cfg["nadh"] + cfg["max_debt"] + inflow
             if spent > avail:
                 return Violation("C05/overspend", f"store {i}: successful spends {spent} > available {avail}")
